@@ -80,6 +80,13 @@ type family struct {
 	rs    []string // instantiated templates accepted by NewVersionRange
 }
 
+var prefixRe = regexp.MustCompile(`^[^0-9]{1,12}`)
+
+// prefixOf returns what a version text carries before its first digit.
+func prefixOf(s string) string {
+	return prefixRe.FindString(strings.TrimLeft(s, " \t"))
+}
+
 func suffixOf(s string) string {
 	if m := baseSplit.FindStringSubmatch(s); m != nil {
 		return m[3]
@@ -307,6 +314,14 @@ func (g *Gen) familyOf(p *prng, name, base string) family {
 				add(pre + core + s2)
 			}
 		}
+		// prefix grafts: the text other versions of this ecosystem carry before
+		// their first digit (release-, rel-, v, an epoch ...)
+		for k := 0; k < 4; k++ {
+			if p2 := prefixOf(pickS(p, ec.versions)); p2 != "" && p2 != pre {
+				add(p2 + core + suf)
+				add(p2 + core)
+			}
+		}
 		if suf != "" {
 			add(pre + core + strings.ToUpper(suf))
 			add(pre + core + strings.ToLower(suf))
@@ -375,6 +390,13 @@ func (g *Gen) familyOf(p *prng, name, base string) family {
 					continue
 				}
 				parts = append(parts, part)
+			}
+			if len(parts) >= 2 && p.chance(1, 3) {
+				// empty items: a run of separators between two parts (slot counts
+				// and constraint counts then differ)
+				i := 1 + p.n(len(parts)-1)
+				gap := make([]string, p.rng(1, 12))
+				parts = append(parts[:i], append(gap, parts[i:]...)...)
 			}
 			if len(parts) >= 3 {
 				r := strings.Join(parts, sep)
